@@ -4,6 +4,12 @@ ADOPT = ["Config._parent@*", "Config._key@*", "Config._container@*"]     # links
 UNCHANGED = "heap_unchanged('Config._parent', 'Config._key', 'Config._container')"
 
 
+def adopt_frame(v):
+    """only Config objects occurring inside the assigned/loaded value get new parent/key/container links"""
+    return ("forall('c:cfg', 'implies(not inside(%s, c), c._parent is old(c._parent) and c._key == old(c._key)"
+            " and c._container is old(c._container))')" % v)
+
+
 def register(reg):
     C = reg.contract
     # ------------------------------------------------------------------ fields (virtual contracts)
@@ -13,11 +19,11 @@ def register(reg):
           "C01.result-satisfies-constraints": "result is None or accepts(self, result)",
           "C11.required-has-value": "implies(self.required and not truthy(self.validator), result is not None or not persistent(self))",
           "C05.none-passes": "implies(value is None, result is None)",
-          "C03+C15.config-links-kept": "cfg._parent is old(cfg._parent) and cfg._key == old(cfg._key) and cfg._container is old(cfg._container)",
+          "C03+C15.adopts-only-inside-value": adopt_frame("value"),
       },
       raises={"C05.none-rejected-only-if-required": "implies(value is None, self.required)",
               "C05.plain-field-accepts-all": "not (exact_class(self, 'Field', 'AnyField') and not self.required and not truthy(self.validator))",
-              "C03+C15.config-links-kept": "cfg._parent is old(cfg._parent) and cfg._key == old(cfg._key) and cfg._container is old(cfg._container)"},
+              "C03+C15.adopts-only-inside-value": adopt_frame("value")},
       defs={"accepts": (["f", "r"], "accepts_type(f, r) or truthy(f.validator)")})
     C("core:Field.__setval__", virtual=True, params={"cfg": "ref:Config", "value": "any"},
       modifies=["dict:cfg._data", "fresh"],
@@ -30,38 +36,45 @@ def register(reg):
                "C12.default-marked": "set_is_add(self._default_value_keys, key)"})
     C("core:Config._set_value", params={"key": "str", "value": "any"}, returns="any",
       modifies=["dict:self._data", "set:self._default_value_keys", "dict:self._fields", "fresh"] + ADOPT,
+      assumes={"A.acyclic": "not inside(value, self)", "A.inside-reflexive": "inside(value, value)"},
       ensures=setvalue_clauses("key")[0], raises=setvalue_clauses("key")[1])
 
 
 def register_construction(reg):
     C = reg.contract
     C("core:Schema.__call__", params={"parent": "opt:ref:Config", "data": "ref:dict"}, returns="ref:Config",
-      modifies=["fresh"] + ADOPT,
+      requires={"keywords-are-strings": 'forall("k:key", "implies(has(data, k), typeis(k, \'str\'))")'},
+      assumes={"A.acyclic": 'forall("k:key", "implies(has(data, k), not inside(get(data, k), parent))")'},
+      modifies=["fresh", "ncalls"] + ADOPT,
       ensures={
           "C13.fresh-config": "fresh(result) and result._schema is self",
           "C03+C15+C02.child-knows-parent": "result._parent is parent",
           "C15.child-key": "result._key == self._key",
           "C06+C13.existing-objects-untouched": UNCHANGED,
+          "C13.without-keywords-nothing-existing-changes": "implies(len(data) == 0, heap_unchanged())",
       },
       raises={"C06+C13.existing-objects-untouched": UNCHANGED,
-              "C15.construction-error-class": "exc_is(ValidationError, AttributeError)"})
+              "C13.without-keywords-nothing-existing-changes": "implies(len(data) == 0, heap_unchanged())",
+              "C15.construction-error-class": "implies(len(data) == 0, exc_is(ValidationError))"})
     C("core:ConfigTypeField.__call__", params={"cfg": "opt:ref:Config"}, returns="ref:ConfigType",
-      modifies=["fresh"] + ADOPT,
+      modifies=["fresh", "ncalls"],
       ensures={
           "C13.fresh-config": "fresh(result)",
           "C03+C15+C02.child-knows-parent": "result._parent is cfg",
-          "C06+C13.existing-objects-untouched": UNCHANGED,
+          "C06+C13.existing-objects-untouched": "heap_unchanged()",
       },
-      raises={"C06+C13.existing-objects-untouched": UNCHANGED,
-              "C15.construction-error-class": "exc_is(ValidationError, AttributeError)"})
+      raises={"C06+C13.existing-objects-untouched": "heap_unchanged()",
+              "C15.construction-error-class": "exc_is(ValidationError)"})
     C("core:Config.load_tree", params={"tree": "ref:dict", "validate": "any"},
+      assumes={"A.acyclic": "not inside(tree, self)"},
       modifies=["dict:self._data", "set:self._default_value_keys", "dict:self._fields", "fresh"] + ADOPT,
       ensures={
           "C06+C13.only-receiver-changes": "heap_unchanged('Config._parent', 'Config._key', 'Config._container', self._data, self._default_value_keys, self._fields)",
-          "C03+C15.config-links-kept": "self._parent is old(self._parent) and self._key == old(self._key) and self._container is old(self._container)",
+          "C03+C15.adopts-only-inside-value": adopt_frame("tree"),
+          "C03+C15.receiver-links-kept": "self._parent is old(self._parent) and self._key == old(self._key) and self._container is old(self._container)",
       },
       raises={
-          "C03+C15.config-links-kept": "self._parent is old(self._parent) and self._key == old(self._key) and self._container is old(self._container)",
+          "C03+C15.adopts-only-inside-value": adopt_frame("tree"),
           "C15.load-error-class": "exc_is(ValidationError, AttributeError)",
           "C06+C13.only-receiver-changes": "heap_unchanged('Config._parent', 'Config._key', 'Config._container', self._data, self._default_value_keys, self._fields)",
       })
@@ -77,6 +90,7 @@ def register(reg):
     register_field_base(reg)
     register_io(reg)
     register_validate(reg)
+    register_defaults(reg)
 
 
 def setvalue_clauses(key):
@@ -88,7 +102,10 @@ def setvalue_clauses(key):
         "C03+C15.subconfig-linked": "implies(typeis(result, 'ref:Config') and not typeis(fieldof(self, KEY), 'ref:Field'),"
                                     " result._parent is self and result._key == KEY and dict_is_upd(self._data, KEY, result))",
     }
+    ens["C03+C15.own-links-kept"] = "self._parent is old(self._parent) and self._key == old(self._key) and self._container is old(self._container) and self._schema is old(self._schema)"
     rai = {
+        "C03+C15.own-links-kept": "self._parent is old(self._parent) and self._key == old(self._key) and self._container is old(self._container) and self._schema is old(self._schema)",
+        "C15.undeclared-key-is-attribute-error": "implies(old(fieldof(self, KEY)) is None, exc_is(AttributeError))",
         "C15.field-rejection-is-validation-error": "implies(old(persistent(fieldof(self, KEY))), exc_is(ValidationError))",
         "C15.subconfig-rejection-class": "implies(old(fieldof(self, KEY) is not None and not typeis(fieldof(self, KEY), 'ref:Field')), exc_is(ValidationError, AttributeError))",
         "C06.state-unchanged": UNCHANGED,
@@ -102,7 +119,7 @@ def register_access(reg):
     SV_MOD = ["dict:self._data", "set:self._default_value_keys", "dict:self._fields", "fresh"] + ADOPT
     ens, rai = setvalue_clauses("name")
     C("core:Config.__setattr__", params={"name": "str", "value": "any"}, returns="any", modifies=SV_MOD,
-      requires={"public-name": "not name.startswith('_')"},
+      requires={"public-name": "not name.startswith('_')"}, assumes={"A.acyclic": "not inside(value, self)", "A.inside-reflexive": "inside(value, value)"},
       note="underscore names are plain attributes (excluded by the precondition); every other name is a field assignment",
       ensures=ens, raises=rai)
     C("core:Config._get_value", params={"key": "str"}, returns="any", modifies=["fresh", "ncalls"],
@@ -122,18 +139,18 @@ def register_access(reg):
 
 def register_field_base(reg):
     C = reg.contract
-    LINKS = ("cfg._parent is old(cfg._parent) and cfg._key == old(cfg._key) and cfg._container is old(cfg._container)")
+    ADOPT_FRAME = adopt_frame("value")
     C("core:Field._validate", virtual=True, params={"cfg": "ref:Config", "value": "any"}, returns="any",
       requires={"not-none": "value is not None"},
       modifies=["fresh", "ncalls"] + ADOPT,
       ensures={
           "C01.type-level-constraints": "accepts_type(self, result)",
           "C11.validated-not-none": "result is not None",
-          "C03+C15.config-links-kept": LINKS,
+          "C03+C15.adopts-only-inside-value": ADOPT_FRAME,
           "C11.required-nonempty": "implies(self.required and typeis(self, 'ref:StringField|ref:ListField|ref:DictField'), truthy(result))",
       },
       raises={"C05.base-never-rejects": "not exact_class(self, 'Field', 'AnyField')",
-              "C03+C15.config-links-kept": LINKS},
+              "C03+C15.adopts-only-inside-value": ADOPT_FRAME},
       defs={"accepts_type": (["f", "r"], "True")})
     C("core:Field.default", params={}, returns="any", modifies=["fresh", "ncalls"],
       assumes={"A.default-is-not-a-schema": "not typeis(self._default, 'ref:BaseField')"},
@@ -195,3 +212,55 @@ def register_validate(reg):
               "validators-so-far": "iff(len(errors) == 0, fields_ok_upto(self, config, nfields(self)) and validators_ok_upto(self, config, I))",
               "raising-mode-has-no-errors": "implies(not truthy(collect_errors), len(errors) == 0)"},
       })
+
+
+def register_defaults(reg):
+    C = reg.contract
+    DEFMOD = ["dict:cfg._data", "set:cfg._default_value_keys", "fresh", "ncalls"]   # declared defaults contain no Config objects (assumption)
+    ONLY = "heap_unchanged(cfg._data, cfg._default_value_keys)"
+    # virtual contract of the "install the default" protocol
+    C("core:BaseField.__setdefault__", virtual=True, params={"cfg": "ref:Config"}, modifies=DEFMOD,
+      ensures={
+          "C12.default-installed-and-marked": "implies(not typeis(self, 'ref:VirtualFieldMixin|ref:InstanceMethodFieldMixin') and not exact_class(self, 'BaseField'),"
+                                              " has(cfg._data, self._key) and has(cfg._default_value_keys, self._key))",
+          "C12.touches-only-its-own-key": "forall('k:key', 'implies(k != self._key, has(cfg._data, k) == old(has(cfg._data, k)) and get(cfg._data, k) == old(get(cfg._data, k))"
+                                          " and has(cfg._default_value_keys, k) == old(has(cfg._default_value_keys, k)))')",
+          "C13.nothing-else-changes": ONLY,
+      },
+      raises={"C14+C15.invalid-environment-value": "exc_is(ValidationError)",
+              "C06+C13.nothing-changes-on-failure": "heap_unchanged()"})
+    C("core:Schema.__setdefault__", params={"cfg": "ref:Config"}, modifies=DEFMOD, base="core:BaseField.__setdefault__",
+      ensures={
+          "C12.default-installed-and-marked": "has(cfg._data, self._key) and has(cfg._default_value_keys, self._key)",
+          "C12.touches-only-its-own-key": "dict_is_upd(cfg._data, self._key, get(cfg._data, self._key)) and set_is_add(cfg._default_value_keys, self._key)",
+          "C13.fresh-sub-configuration": "fresh(get(cfg._data, self._key)) and typeis(get(cfg._data, self._key), 'ref:Config')",
+          "C03+C15.sub-configuration-linked": "get(cfg._data, self._key)._parent is cfg and get(cfg._data, self._key)._key == self._key",
+          "C13.nothing-else-changes": ONLY,
+      },
+      raises={"C14+C15.invalid-environment-value": "exc_is(ValidationError, AttributeError)",
+              "C06+C13.nothing-changes-on-failure": "heap_unchanged()"})
+    C("core:ConfigTypeField.__setdefault__", params={"cfg": "ref:Config"}, modifies=DEFMOD, base="core:BaseField.__setdefault__",
+      ensures={
+          "C12.default-installed-and-marked": "has(cfg._data, self._key) and has(cfg._default_value_keys, self._key)",
+          "C12.touches-only-its-own-key": "dict_is_upd(cfg._data, self._key, get(cfg._data, self._key)) and set_is_add(cfg._default_value_keys, self._key)",
+          "C13.fresh-sub-configuration": "fresh(get(cfg._data, self._key)) and typeis(get(cfg._data, self._key), 'ref:Config')",
+          "C03+C15.sub-configuration-linked": "get(cfg._data, self._key)._parent is cfg and get(cfg._data, self._key)._key == self._key",
+          "C13.nothing-else-changes": ONLY,
+      },
+      raises={"C14+C15.invalid-environment-value": "exc_is(ValidationError, AttributeError)",
+              "C06+C13.nothing-changes-on-failure": "heap_unchanged()"})
+    OWN = 'self._schema is schema and self._parent is parent and self._key == schema._key and iff(truthy(self.__keyfile), truthy(key_filename)) and implies(truthy(key_filename), self.__keyfile.filename == key_filename and fresh(self.__keyfile))'
+    DEF = 'forall("k:key", "implies(has(schema._fields, k) and pos(schema._fields, k) < %s and not has(data, k) and not typeis(get(schema._fields, k), \'ref:VirtualFieldMixin|ref:InstanceMethodFieldMixin\') and not exact_class(get(schema._fields, k), \'BaseField\'), has(self._data, k) and has(self._default_value_keys, k))")'
+    C("core:Config.__init__", params={"schema": "ref:Schema", "parent": "opt:ref:Config", "key_filename": "opt:str", "data": "ref:dict"},
+      modifies=["self.*", "fresh", "ncalls"] + ADOPT,
+      requires={"keywords-are-strings": 'forall("k:key", "implies(has(data, k), typeis(k, \'str\'))")'},
+      assumes={"A.acyclic": 'forall("k:key", "implies(has(data, k), not inside(get(data, k), self) and inside(get(data, k), get(data, k)))") and parent is not self'},
+      invariants={0: {"own": OWN, "frame": "implies(len(data) == 0, heap_unchanged(self, self._data, self._fields, self._default_value_keys))"}, 1: {"own": OWN, "defaults-so-far": DEF % "I", "frame": "implies(len(data) == 0, heap_unchanged(self, self._data, self._fields, self._default_value_keys))"}},
+      ensures={
+          "C12.every-unsupplied-field-has-its-default-and-is-not-user-defined": DEF % "nfields(schema)",
+          "C13.own-representation": "self._schema is schema and self._parent is parent and self._key == schema._key",
+          "C03.key-file-named-iff-given": "iff(truthy(self.__keyfile), truthy(key_filename)) and implies(truthy(key_filename), self.__keyfile.filename == key_filename and fresh(self.__keyfile))",
+          "C13.construction-touches-nothing-existing": "implies(len(data) == 0, heap_unchanged(self, self._data, self._fields, self._default_value_keys))",
+      },
+      raises={"C15.construction-error-class": "implies(len(data) == 0, exc_is(ValidationError))",
+              "C13.construction-touches-nothing-existing": "implies(len(data) == 0, heap_unchanged(self, self._data, self._fields, self._default_value_keys))"})
